@@ -91,6 +91,7 @@ def get_use_tree(
         use_dict_mod = use_dict.get(use_stmnt.mod_name)
         if use_dict_mod is not None:
             old_len = len(use_dict_mod.only_list)
+            old_names = set(use_dict_mod.rename_map)
             if old_len > 0 and merged_use_list:
                 only_len = old_len
                 for only_name in merged_use_list:
@@ -110,8 +111,12 @@ def get_use_tree(
                     use_stmnt.mod_name,
                     rename_map={**use_dict_mod.rename_map, **merged_rename},
                 )
-            # Skip if we have already visited module with the same only list
-            if old_len == len(use_dict[use_stmnt.mod_name].only_list):
+            # Skip if we have already visited module with the same only list,
+            # unless this USE brings local names (renames) that the modules
+            # further down, which may hold the renamed entity, have not seen
+            if old_len == len(
+                use_dict[use_stmnt.mod_name].only_list
+            ) and old_names.issuperset(merged_rename):
                 continue
         else:
             if type(use_stmnt) is Use:
